@@ -59,6 +59,16 @@ theorem C19_add (hs : List Hook) (h : Hook) :
   · intro h0; simp [add, h0]
   · intro e h0; simp [add, h0]
 
+/-- `Hooks.Provides(b...)`: true iff some registered hook provides some of the requested methods -/
+theorem C19_provides_any (hs : List Hook) (bs : List Method) :
+    providesAny hs bs = true ↔ ∃ h ∈ hs, ∃ b ∈ bs, h.provides b = true := by
+  simp [providesAny, List.any_eq_true]
+
+/-- the model's constants are the `iota` values of hooks.go:19-58 (compared with the real constants by `hk.const`) -/
+example : Method.setOptions.code = 0 ∧ Method.onConnectAuthenticate.code = 4 ∧ Method.onACLCheck.code = 5 ∧
+    Method.onPacketRead.code = 11 ∧ Method.onPublish.code = 20 ∧ Method.onWill.code = 29 ∧
+    Method.storedClients.code = 33 ∧ Method.storedSysInfo.code = 37 ∧ Method.all.length = 38 := by decide
+
 /-- **Notify-all** (the 21 dispatchers without a result): every providing hook is called exactly once, in
     registration order, with exactly the dispatcher's arguments; no other hook is called -/
 theorem C19_notify_all (m : Method) (a : Arg) (hs : List Hook) :
